@@ -1197,3 +1197,22 @@ def r3b(cx):
     src = Q.value_source(b, du, t['a'][0]) if t['a'] else None
     if src is None or not Q.callee_is(src, [Q.re.compile(r'Clone>::clone$'), '*::Clone::clone']):
         cx.violation(b.root, 'bracket-attempt-position', 'the bracket attempt does not start from a clone of the current position', loc=b.loc(t))
+
+
+@RS.rule('C04.R1c', 'K-CALLERS', 'the pattern AST is a sequence of characters: no byte length of pattern text is used when parsing or translating it')
+def r1c(cx):
+    import mirq as Q
+    F = cx.F
+    BYTE_LEN = ['core::str::<impl str>::len', 'alloc::string::String::len']
+    # positive example for the matcher: Pattern::find legitimately works with byte ranges of the matched text
+    pos = [1 for b in F.bodies_in(['yash_fnmatch::Pattern::find', 'yash_fnmatch::Pattern::rfind']) for _ in Q.find_calls(b, BYTE_LEN)]
+    cx.require(pos, 'the byte-length matcher no longer matches its positive example (Pattern::find)')
+    n = 0
+    for b in F.bodies_in(['yash_fnmatch::ast::']):
+        n += 1
+        for blk, t in Q.find_calls(b, BYTE_LEN):
+            cx.violation(b.root, 'byte-length-of-pattern-text', 'a byte length (%s) decides something about pattern text, which is a sequence of '
+                         'characters: a single non-ASCII character then counts as "more than one character" (a one-character collating '
+                         'symbol such as [.é.] is dropped from a complemented bracket expression)' % pp.callee(t), loc=b.loc(t))
+    cx.site('yash_fnmatch::ast: %d bodies scanned for byte lengths; matcher validated on %d Pattern::find/rfind sites' % (n, len(pos)))
+    cx.floor(n, 20, 'pattern AST bodies')
